@@ -702,3 +702,107 @@ Proof.
             ce_fc := {| fc_cap := 5; fc_items := [((1, 1), true)] |} |}, 5%nat, (mkCache [] 0 0 0 false).
   cbn. discriminate.
 Qed.
+
+(* ====================== Round 5: Reset of the same object ====================== *)
+Lemma quorum_of_pos ws : 0 < quorum_of ws.
+Proof. unfold quorum_of. lia. Qed.
+Lemma coh_purge_empty (c : bcache) : @WlruProofs.inv N (list N) c -> coh {| t_fl := []; t_cur := []; t_c := purge_b c |}.
+Proof.
+  intros I. unfold coh, purge_b. cbn [t_c t_cur t_fl Wlru.purge fst c_entries].
+  split; [eapply purge_inv; [exact I|unfold Wlru.purge; reflexivity]|]. split; [intros e []|].
+  split; intros k b H; discriminate H.
+Qed.
+
+(* the U of a segment is a ghost: every event added in the segment is drawn from it *)
+Definition rinv (U : list (N * event)) (st : rstate) : Prop :=
+  cinv (r_ws st) (quorum_of (r_ws st)) (r_n st) U (r_ce st, r_out st) /\
+  forall ws n a b r E, In (ws, n, (a, b, r, E)) (r_arch st) -> r = fc_spec ws (quorum_of ws) n E a b.
+
+Lemma cinv_out ws q n U ce out : cinv ws q n U (ce, out) -> forall a b r E, In (a, b, r, E) out -> r = fc_spec ws q n E a b.
+Proof. intros (vs & _ & (_ & _ & _ & _ & _ & Ho) & _). exact Ho. Qed.
+
+Lemma rinv_archive U st : rinv U st ->
+  forall ws n a b r E, In (ws, n, (a, b, r, E)) (map (fun x => (r_ws st, r_n st, x)) (r_out st) ++ r_arch st) ->
+    r = fc_spec ws (quorum_of ws) n E a b.
+Proof.
+  intros [C A] ws n a b r E Hin. apply in_app_or in Hin. destruct Hin as [Hin|Hin]; [|eapply A; eauto].
+  apply in_map_iff in Hin. destruct Hin as ([[[a' b'] r'] E'] & Heq & Hin). injection Heq as <- <- <- <- <- <-.
+  eapply cinv_out; eauto.
+Qed.
+
+(* Reset onto the same database: same validator count, any weights; the ghost universe may change as long as
+   the flushed events belong to it (an unflushed event lost by the Reset may be REPLACED by another event with
+   the same id) *)
+Lemma reset_same_ok ws q n U ce out ws' U' : cinv ws q n U (ce, out) ->
+  submap (evs (p_view (p_restart (ce_p ce)))) U' ->
+  cinv ws' (quorum_of ws') n U' (ce_reset_same ce, []).
+Proof.
+  intros (vs & R & H & Chb & Cla & Lc & Lf & Hd) HU.
+  pose proof (p_step_sim n (ce_p ce) vs PRestart R I) as R'. cbn [p_step vop_of vs_step] in R'.
+  exists (vs_drop vs). split; [exact R'|].
+  rewrite (pr_cur n _ _ R') in HU. cbn [vs_drop vs_cur] in HU.
+  split.
+  { unfold hst_ok. cbn [vs_drop vs_cur vs_flushed ce_reset_same ce_fc fcache_purge fc_items].
+    split; [apply (pr_ifl n _ _ R)|]. split; [apply (pr_ifl n _ _ R)|]. split; [exact HU|]. split; [exact HU|].
+    split; [intros k r []|intros a b r E []]. }
+  unfold ce_reset_same. cbn [ce_p ce_hbc ce_lac ce_dirty vs_drop vs_cur vs_flushed].
+  split; [apply (coh_purge (ce_hb_t ce) Chb)|]. split; [apply (coh_purge (ce_la_t ce) Cla)|]. auto.
+Qed.
+(* Reset onto another (empty) database: any validator count *)
+Lemma reset_fresh_ok ws q n U ce out ws' n' U' : cinv ws q n U (ce, out) ->
+  cinv ws' (quorum_of ws') n' U' (ce_reset_fresh n' ce, []).
+Proof.
+  intros (vs & R & H & (Ihb & _) & (Ila & _) & _).
+  exists (vs_init n'). split; [apply prel_init|].
+  split.
+  { unfold hst_ok. cbn [vs_init vs_flushed vs_cur ce_reset_fresh ce_fc fcache_purge fc_items].
+    split; [apply vinv_init|]. split; [apply vinv_init|]. split; [intros x ex Hx; discriminate Hx|].
+    split; [intros x ex Hx; discriminate Hx|]. split; [intros k r []|intros a b r E []]. }
+  unfold ce_reset_fresh, ce_hb_t, ce_la_t. cbn [ce_p ce_hbc ce_lac ce_dirty p_init p_db p_cur pdb_empty pd_hb pd_la].
+  split; [apply coh_purge_empty; exact Ihb|]. split; [apply coh_purge_empty; exact Ila|].
+  split; [split; intros k v []|]. split; [split; intros k v []|]. auto.
+Qed.
+
+(* side conditions of a step of a reuse history; the ghost universes are given per segment by [Us] *)
+Definition rop_ok (U U' : list (N * event)) (st : rstate) (o : rop) : Prop :=
+  match o with
+  | RO o => cop_ok (r_n st) U (r_ce st) o /\ U' = U
+  | RResetSame _ => submap (evs (p_view (p_restart (ce_p (r_ce st))))) U'
+  | RResetFresh _ _ => True end.
+Theorem rstep_ok U U' st o : rinv U st -> rop_ok U U' st o -> rinv U' (rstep st o).
+Proof.
+  intros Hinv Hok. pose proof (rinv_archive U st Hinv) as Harch. destruct Hinv as [C A].
+  destruct o as [o|ws'|ws' n']; cbn [rstep rop_ok] in *.
+  - destruct Hok as [Hok ->].
+    pose proof (cstep_ok (r_ws st) (quorum_of (r_ws st)) (r_n st) U (r_ce st, r_out st) o (quorum_of_pos _) C Hok) as C'.
+    destruct (cstep (r_ws st) (quorum_of (r_ws st)) (r_ce st, r_out st) o) as [ce out].
+    split; [exact C'|exact A].
+  - split; [|exact Harch]. cbn [r_ws r_n r_ce r_out]. eapply reset_same_ok; eauto.
+  - split; [|exact Harch]. cbn [r_ws r_n r_ce r_out]. eapply reset_fresh_ok; eauto.
+Qed.
+
+(* histories with their per-step ghost universes *)
+Fixpoint rops_ok (U : list (N * event)) (st : rstate) (ops : list (rop * list (N * event))) : Prop :=
+  match ops with [] => True
+  | (o, U') :: r => rop_ok U U' st o /\ rops_ok U' (rstep st o) r end.
+Definition r_init (ws : list N) (n : nat) (cap : nat) (c0 : bcache) : rstate :=
+  {| r_ws := ws; r_n := n; r_ce := ce_new n cap c0 c0; r_out := []; r_arch := [] |}.
+
+(* C05 for a REUSED Index object: any history of Adds, cached queries, Flushes, Drops, restarts AND Resets of
+   the same object (same DB with other weights, or another DB with another validator set), with events of a lost
+   unflushed tail possibly replaced by other events of the same id: every answer ever given equals the
+   specification under the weights / validators and on the view current when it was asked *)
+Theorem reuse_history_answers ws n cap mw ms c0 U ops : small mw -> Wlru.new mw ms = Some c0 ->
+  rops_ok U (r_init ws n cap c0) ops ->
+  forall ws1 n1 a b r E, In (ws1, n1, (a, b, r, E)) (r_answers (fold_left rstep (map fst ops) (r_init ws n cap c0))) ->
+    r = fc_spec ws1 (quorum_of ws1) n1 E a b.
+Proof.
+  intros Hmw Hnew W.
+  assert (H0 : rinv U (r_init ws n cap c0)).
+  { split; [apply (cinv_new ws (quorum_of ws) n U cap mw ms c0 Hmw Hnew)|intros ? ? ? ? ? ? []]. }
+  assert (Hfin : exists Uf, rinv Uf (fold_left rstep (map fst ops) (r_init ws n cap c0))).
+  { revert H0 W. generalize (r_init ws n cap c0). revert U.
+    induction ops as [|[o U'] ops IH]; intros U st H0 W; cbn [map fold_left fst]; [exists U; exact H0|].
+    destruct W as [Wo Wr]. apply (IH U'); [eapply rstep_ok; eauto|exact Wr]. }
+  destruct Hfin as [Uf Hf]. intros ws1 n1 a b r E Hin. unfold r_answers in Hin. eapply rinv_archive; eauto.
+Qed.
